@@ -266,7 +266,7 @@ func cmdCheck(args []string) int {
 						if !seenFinding[f.Finding] {
 							seenFinding[f.Finding] = true
 							nKnown++
-							knownLines = append(knownLines, fmt.Sprintf("KNOWN-FINDING: property=%s bounded(%s) %s [e.g. %s: %s]", *prop, br.Name, kfm.What, f.Input, f.Why))
+							knownLines = append(knownLines, oneLine(fmt.Sprintf("KNOWN-FINDING: property=%s bounded(%s) %s [e.g. %s: %s]", *prop, br.Name, kfm.What, f.Input, f.Why)))
 						}
 						continue
 					}
@@ -399,4 +399,8 @@ func levelOverride(verif, prop string) string {
 		return ""
 	}
 	return m[prop]
+}
+
+func oneLine(s string) string {
+	return strings.Join(strings.Fields(s), " ")
 }
